@@ -189,12 +189,18 @@ def project(raw_events, scenario, bound=None):
         return "data-ok"
 
     big_resp = set(ev.get("size", 0) for ev in raw_events if ev.get("ev") == "RespCall" and ev.get("size", 0) > MAX_PAYLOAD)
+    # invocation ordinal -> sizes of the oversized responses posted for its request id
+    big_by_k = {}
+    for ev in raw_events:
+        if ev.get("ev") == "RespCall" and ev.get("size", 0) > MAX_PAYLOAD and reqk.get(ev.get("reqid", "")):
+            big_by_k.setdefault(reqk[ev["reqid"]], set()).add(ev["size"])
 
-    def caller_body(lbl):
-        """the too-large error must state the size posted and the limit"""
+    def caller_body(lbl, k=None):
+        """the too-large error must state the size posted for this invocation and the limit"""
         if lbl and lbl.startswith("err:Function.ResponseSizeTooLarge"):
             parts = lbl.split("|")
-            if len(parts) == 3 and parts[1].isdigit() and int(parts[1]) in big_resp and parts[2] == str(MAX_PAYLOAD):
+            mine = big_by_k.get(k) or big_resp
+            if len(parts) == 3 and parts[1].isdigit() and int(parts[1]) in mine and parts[2] == str(MAX_PAYLOAD):
                 return ["err", "Function.ResponseSizeTooLarge"]
             return ["err", "Function.ResponseSizeTooLarge-wrong-sizes"]
         return body_label(lbl)
@@ -286,7 +292,7 @@ def project(raw_events, scenario, bound=None):
                      pl=0 if ev.get("payload") == "empty" else ev["k"],
                      big=ev.get("size", 0) > MAX_PAYLOAD, large=ev.get("size", 0) > 64 * 1024)
         elif kind == "InvokeRet":
-            o.update(e="InvokeRet", caller=ev["caller"], k=ev["k"], out=ev.get("err", ""), body=caller_body(ev.get("body")),
+            o.update(e="InvokeRet", caller=ev["caller"], k=ev["k"], out=ev.get("err", ""), body=caller_body(ev.get("body"), ev.get("k")),
                      status=ev.get("status", 0), dur=ev.get("durMs", 0))
         elif kind == "ProcExit":
             if ev.get("cause") == "kill":
